@@ -246,8 +246,16 @@ def peer_cases(r, n, hostile=0.35):
         seq = []
         for t in tags:
             seq += [(t, b) for b in order]
-        if len(tags) > 1 and r.random() < 0.7:
-            r.shuffle(seq)
+        if len(tags) > 1:
+            x = r.random()
+            if x < 0.4:
+                r.shuffle(seq)                       # two transfers at the same time
+            elif x < 0.8:
+                # the first one is abandoned part-way, then the second one runs
+                cut = r.randrange(1, max(2, nb))
+                seq = [(tags[0], b) for b in order[:cut]] + [(tags[1], b) for b in order]
+                if r.random() < 0.3:
+                    seq += [(tags[0], b) for b in order[cut:]]
         # duplicates and gaps
         seq2 = []
         for it in seq:
@@ -297,4 +305,32 @@ def peer_cases(r, n, hostile=0.35):
         drv = "peer %s %d %d %d 1 %s" % (d, ln, seed, cfg, " ".join(items))
         mdl = "blkpeer %s %d %d %d %s" % (d, ln, seed, 0 if cfg == 7 else cfg, " ".join(items))
         out.append((drv, mdl))
+    return out
+
+
+def e2e_two_uploads(r, n):
+    """two uploads to ONE resource on one session (bodies from different byte streams):
+    at the same time, or the first abandoned part-way (NON + a dropped block) and then the second;
+    schedules use loss and reordering only"""
+    out = []
+    for i in range(n):
+        s = r.choice([7, 7, 3, 4, 5])
+        c = 1024 if s == 7 else chunk(s)
+        la = r.randrange(2, 6) * c + r.choice([-1, 0, 1, r.randrange(-c + 1, c)])
+        lb = r.randrange(2, 6) * c + r.choice([-1, 0, 1, r.randrange(-c + 1, c)])
+        typ = r.randrange(2)
+        mode = i % 3
+        if mode == 0:
+            sched, start = ".", 0                       # concurrent, no loss
+        elif mode == 1:
+            sched = "".join(r.choice("....xh") for _ in range(r.randrange(1, 14)))
+            start = r.choice([0, 0, 2, 4])
+        else:
+            # abandon A: NON, drop one of its block messages, start B right after
+            typ = 1
+            k = 2 * r.randrange(1, 3)
+            sched, start = "." * k + "x", k + 1
+        out.append("e2e b11 %d %d %d %d %d 7 1 1 0 0 %s %d %d" %
+                   (la, r.randrange(250), typ, s if r.random() < 0.5 else 7, s if r.random() < 0.5 else 7,
+                    sched, lb, start))
     return out
